@@ -250,7 +250,7 @@ def _grid(rng, uniform: bool, n: int, lo: float, hi: float, unit: bool = False):
 def make_table(rng, family: str, sw: float) -> dict:
     """One PVT table of a named family: dict(P, cols, So, meta).  FVFs and viscosities positive, pressure increasing."""
     meta = {"family": family}
-    if family in ("shipped", "rescaled", "subsampled", "vaporised"):
+    if family in ("shipped", "rescaled", "subsampled", "vaporised", "condensate"):
         df = shipped_oil_water(0.1)
         idx = np.arange(len(df))
         if family == "subsampled":
@@ -266,6 +266,11 @@ def make_table(rng, family: str, sw: float) -> dict:
             unit = float(rng.choice([1.0, 14.5037738, 0.5]))  # pressure in other units (rows stay >= 1 apart)
             P = P * unit
             meta.update({"factors": f, "pressure_unit": unit})
+        if family == "condensate":
+            # vaporised oil appears above a threshold pressure (Rv exactly 0 up to a table row, rising beyond it)
+            k0 = int(rng.integers(len(P) // 4, 3 * len(P) // 4))
+            cols["Rv"] = float(rng.uniform(5e-5, 3e-4)) * np.maximum(0.0, (P - P[k0]) / (P[-1] - P[k0]))
+            meta.update({"Rv": "zero up to a row, rising above", "Rv_leaves_zero_at": float(P[k0])})
         if family == "vaporised":
             cols["Rv"] = float(rng.uniform(1e-5, 2e-4)) * (1 + P / P[-1])
             meta["Rv"] = "rising"
